@@ -121,6 +121,31 @@ def run(index, rep, tier):
                           "%s accumulates into self.%s for every tree but %s neither merges nor compares that field: data of partitioned runs is silently lost"
                           % (afi.qualname, f, mfi.qualname))
 
+    # ---- R06.6 merge copies, never aliases
+    rep.rule("R06.6", "merging never aliases: a merge function does not store an element of the argument's containers (a per-split list) into self without copying")
+    nst = 0
+    for mq in (SD + ".update", TA + ".update", TA + ".extend"):
+        mfi = index.function(mq)
+        other = [p for p in mfi.params if p != "self"][0]
+        for n in walk_no_nested(mfi.node):
+            if isinstance(n, ast.Assign) and len(n.targets) == 1:
+                t = n.targets[0]
+                root = t
+                while isinstance(root, (ast.Attribute, ast.Subscript)):
+                    root = root.value
+                if not (isinstance(root, ast.Name) and root.id == "self"):
+                    continue
+                nst += 1
+                v = n.value
+                alias = isinstance(v, ast.Subscript) and not isinstance(v.slice, ast.Slice) and _root_of(v) == other
+                if isinstance(v, ast.Call) and call_name(v) in ("get", "setdefault", "pop") and _root_of(v.func) == other:
+                    alias = True
+                if isinstance(t, ast.Subscript) and isinstance(v, ast.Name) and v.id in tainted_names(mfi, [other]) and v.id != other:
+                    alias = True   # an element obtained by iterating the argument's containers
+                rep.check(not alias, "R06.6", mfi.qualname, "aliases argument element: " + norm_stmt(n)[:70], fn_where(mfi, n), "%s: `%s` does not alias a mutable element of the argument" % (mfi.name, norm_stmt(n)[:50]),
+                          "%s stores `%s`, the argument's own container element, into self without copying: a later merge into either collection also changes the other (the same sub-collection merged into two masters, or a + b followed by b + a, double-counts values)" % (mfi.qualname, norm(v)[:60]))
+    rep.floor("R06.6", "stores into self in the merge functions", 4, nst)
+
     # ---- R06.3
     nrej = 0
     for name in ("update", "extend"):
@@ -277,6 +302,12 @@ def run(index, rep, tier):
     rep.check(ok, "R06.5", par.qualname, "taxon_labels order", fn_where(par, tl[0] if tl else None),
               "worker namespaces are rebuilt from the master's labels in the master's order (same label -> same bit)",
               "taxon_labels handed to the workers is not the master's namespace in iteration order: split bitmasks from different workers would not be comparable")
+
+
+def _root_of(e):
+    while isinstance(e, (ast.Attribute, ast.Subscript, ast.Call)):
+        e = e.func if isinstance(e, ast.Call) else e.value
+    return e.id if isinstance(e, ast.Name) else None
 
 
 def _inside_loop_of(loop, stmt):
